@@ -49,14 +49,14 @@ type fakeOpAMP struct {
 	attempts int
 }
 
-func (f *fakeOpAMP) Start(context.Context, types.StartSettings) error              { return nil }
-func (f *fakeOpAMP) Stop(context.Context) error                                    { return nil }
-func (f *fakeOpAMP) SetAgentDescription(*protobufs.AgentDescription) error         { return nil }
-func (f *fakeOpAMP) AgentDescription() *protobufs.AgentDescription                 { return nil }
-func (f *fakeOpAMP) SetHealth(*protobufs.ComponentHealth) error                    { return nil }
-func (f *fakeOpAMP) UpdateEffectiveConfig(context.Context) error                   { return nil }
-func (f *fakeOpAMP) SetRemoteConfigStatus(*protobufs.RemoteConfigStatus) error     { return nil }
-func (f *fakeOpAMP) SetPackageStatuses(*protobufs.PackageStatuses) error           { return nil }
+func (f *fakeOpAMP) Start(context.Context, types.StartSettings) error          { return nil }
+func (f *fakeOpAMP) Stop(context.Context) error                                { return nil }
+func (f *fakeOpAMP) SetAgentDescription(*protobufs.AgentDescription) error     { return nil }
+func (f *fakeOpAMP) AgentDescription() *protobufs.AgentDescription             { return nil }
+func (f *fakeOpAMP) SetHealth(*protobufs.ComponentHealth) error                { return nil }
+func (f *fakeOpAMP) UpdateEffectiveConfig(context.Context) error               { return nil }
+func (f *fakeOpAMP) SetRemoteConfigStatus(*protobufs.RemoteConfigStatus) error { return nil }
+func (f *fakeOpAMP) SetPackageStatuses(*protobufs.PackageStatuses) error       { return nil }
 func (f *fakeOpAMP) RequestConnectionSettings(*protobufs.ConnectionSettingsRequest) error {
 	return nil
 }
